@@ -652,7 +652,9 @@ def run_xhistory(ctx, ob, history, mout, hid, note=True):
             if note:
                 ctx.note_case((hkey, n), nontrivial=changed)
             prev = cur
-            clean = clean and not changed
+            # not clean even when nothing observable changed: the VALUE of a retained keyword may have been replaced
+            # by the offending one (e.g. pol=[] -> pol=['h', 3]), which poisons later calls
+            clean = False
             continue
         if not clean:
             # accepted call on a half-updated data set: the dimensions it starts afresh must be as documented
